@@ -5,7 +5,10 @@ from lib import cstr, clist
 
 CELLS = ["c%d", "c%d {{a|x}}", "c%d [[l|t]]", "'''c%d'''", "''c%d''", "c%d <b>h</b>", "c%d word word", "c%d [http://x.y e]",
          "c%d {{a|[[l]]}}", "c%d", "c%d 12", "c%d <span class=\"s\">q</span>", "c%d {{#if:a|b}}", "{{lc:Foo}} c%d", "c%d {{uc:x}} t",
-         "c%d {{PAGENAME}}", "c%d {{#switch:a|a=1|2}}", "c%d=1", "n=c%d", "c%d=x y=z", "n=1 c%d"]
+         "c%d {{PAGENAME}}", "c%d {{#switch:a|a=1|2}}", "c%d=1", "n=c%d", "c%d=x y=z", "n=1 c%d",
+         # bracketed addresses with schemes other than http(s): (they are read back as text)
+         "c%d [ftp://h.x/p lbl]", "[irc://h.x/c] c%d", "c%d [git://h.x/r.git r] t", "c%d [telnet://h.x]", "c%d [mailto:a@b.c m]",
+         "c%d [//h.x/p l]", "c%d [notascheme:x y]"]
 ANAMES = ["class", "style", "id", "colspan", "data-x", "lang", "rowspan", "title", "data_kind", "row.no", "cell~ref", "xml:lang",
           "nowrap", "hidden", "reversed", "open", "align", "dir"]
 AVALS = ["x", "wikitable", "2", "a-b", "a_b", "r.s", "Zz9", ""]
@@ -348,6 +351,50 @@ def run(run):
     run.extra["traces_validated_against_impl"] = len(coq_cases)
     import c03_tables
     c03_tables.check(run)
+    check_vbar_split(run)
+
+
+def check_vbar_split(run):
+    """Model/VbarSplit.v against the argument lists of real template calls, argument references and links."""
+    rng = run.rng
+    # (arguments that are nothing but blanks are dropped by the tokenizer when the argument is re-parsed: C14's known finding)
+    atoms = ["a", "b c", " x ", "", "k=v", "1", "z\nw", "é", "-", "}", "{", "]", "'", "="]
+    cases, texts = [], []
+    for _ in range(400 if run.tier == "quick" else 6000):
+        args = [rng.choice(atoms) for _ in range(rng.randint(1, 6))]
+        kind = rng.choice(["T", "A", "L"])
+        name = rng.choice(["tt", "Foo bar", "x1"])
+        inner = "|".join([name] + args)
+        if kind == "L" and ("}" in inner or "{" in inner or "]" in inner or "\n" in inner):
+            kind = "T"
+        if ("}" in inner or "{" in inner) and kind != "L":
+            args = [a for a in args if "{" not in a and "}" not in a] or ["a"]
+            inner = "|".join([name] + args)
+        texts.append({"T": "{{%s}}", "A": "{{{%s}}}", "L": "[[%s]]"}[kind] % inner)
+        cases.append((kind, inner))
+    res = lib.run_impl("parse_many", [{"texts": texts[i:i + 200]} for i in range(0, len(texts), 200)], shards=lib.NCPU)
+    outs = [o for r in res for o in r.get("outs", [])]
+    coq_cases, idx = [], []
+    want_kind = {"T": ("TEMPLATE", "PARSER_FN"), "A": ("TEMPLATE_ARG",), "L": ("LINK",)}
+    for i, ((kind, inner), o) in enumerate(zip(cases, outs)):
+        run.count(["vbar", texts[i]], inner.count("|") >= 2, "argument-list")
+        ch = o.get("tree", {}).get("c", []) if "raised" not in o else None
+        node = next((c for c in (ch or []) if isinstance(c, dict) and c.get("k") in want_kind[kind]), None)
+        if node is None:
+            continue
+        largs = ["".join(x for x in l if isinstance(x, str)) if all(isinstance(x, str) for x in l) else None for l in node.get("a", [])]
+        if None in largs:
+            continue
+        coq_cases.append("(%s, %s)" % (cstr(inner), clist(largs, cstr, "str")))
+        idx.append(i)
+    bad, errs = lib.coq_eval_failing("c03v", ["Base.Str", "Model.VbarSplit"], "str * list str", coq_cases,
+                                     "fun '(v, real) => match vbar_split v with Some a => strs_eqb a real | None => true end",
+                                     extra_defs="Open Scope N_scope.\n", chunk=300)
+    for e in errs:
+        run.correspondence_break("model evaluation failed (vbar_split)", None, error=e)
+    for b in bad:
+        run.correspondence_break("Model.VbarSplit.vbar_split disagrees with the argument list the parser builds", texts[idx[b]])
+    run.extra["argument_lists_validated_against_impl"] = len(coq_cases)
 
 
 def replay(data):
